@@ -277,6 +277,42 @@ def run_case(case):
                 viol.append(V(f'C16:driver2-stopped:{r2.outcome}:{ty}', f'read-back driver stopped after {len(p2)}/{2 * m}: '
                               f'{r2.outcome} {r2.stdout[-200:]!r} {r2.crash_tb}',
                               item=items[len(p2) % m] if items else None))
+    # third driver: the same numbers and texts written as constants in the source, unoptimised and fully optimised (what a
+    # compiler evaluates itself must be what the run-time library produces)
+    if texts:
+        from .c19 import lit_of
+        step = max(1, len(texts) // 40)
+        pick = texts[::step][:40]
+        lines3 = []
+        for v, x, tx in pick:
+            lit = lit_of(ty, x)
+            lines3 += [f'PRINT VAL("{tx.strip()}")', f'PRINT STR$({lit})', f'PRINT {lit}']
+        drv3 = '\n'.join(lines3) + '\n'
+        for cfg in ((0, False), (2, False), (1, True)):
+            c3 = rt.compile_src(drv3, cfg[0], cfg[1])
+            if c3.status != 'ok':
+                viol.append(V(f'C16:driver3-rejected:{ty}', f'{rt.cfg_name(cfg)}: {c3.brief()} {c3.msg}', text=drv3[:400]))
+                continue
+            r3 = rt.run_module(rt.load_module(c3.modbytes), {}, max_ticks=200 * len(pick) + 1000)
+            p3 = [e for e in r3.history if e[0] == 'print']
+            o3 = [e[1] for e in r3.history if e[0] == 'out']
+            st['constant_forms_checked'] = st.get('constant_forms_checked', 0)
+            for i, (v, x, tx) in enumerate(pick):
+                if 3 * i + 2 >= len(p3):
+                    viol.append(V(f'C16:driver3-stopped:{r3.outcome}:{ty}', f'{rt.cfg_name(cfg)}: constant-form driver stopped after '
+                                  f'{len(p3)}/{3 * len(pick)} statements: {r3.outcome}', value=repr(x)))
+                    break
+                st['constant_forms_checked'] += 1
+                back = p3[3 * i][1][0][2]
+                viol += [dict(w, sig=w['sig'] + ':constant-text') for w in roundtrip_viol(ty, x, tx, back, 'VAL')]
+                stxt = p3[3 * i + 1][1][0][2]
+                if isinstance(stxt, str) and stxt.strip() != tx.strip():
+                    viol.append(V(f'C16:str-of-constant-differs:{ty}', f'{rt.cfg_name(cfg)}: STR$({lit_of(ty, x)}) gives {stxt!r}, the same '
+                                  f'value held in a variable prints as {tx!r}', value=repr(x)))
+                pv = p3[3 * i + 2][1][0]
+                if pv[1] != ty or (pv[2] != x and not (pv[2] != pv[2] and x != x)):
+                    viol.append(V(f'C16:constant-value-differs:{ty}', f'{rt.cfg_name(cfg)}: PRINT {lit_of(ty, x)} pushes {pv[1:]}, the '
+                                  f'value read from DATA was {x!r}', value=repr(x)))
     sample = {'type': ty, 'value': repr(vals[0]), 'print_text': texts[0][2] if texts else None}
     # de-duplicate violations by signature within the case, keep counts
     return {'viol': viol[:60], 'stats': st, 'shape': shapes, 'nontrivial': bool(texts), 'sample': sample}
